@@ -496,6 +496,243 @@ example : (newref 65535 (fun r => decide (r ≤ 65535) && r != 4916)).1 = 4916 :
     simp only [Bool.and_eq_false_imp, decide_eq_true_eq, bne_eq_false_iff_eq] at h3
     simp only [Option.getD_some]; exact h3 h2
 
+/-- the descriptors-per-block count of a new file is a positive `int16` whatever `int16` was asked for (so the block size
+    `6 + 12 * ndds` is at most 393210 bytes), and a request is refused only when it is negative -/
+theorem nddsEff_fits16 (req : Int) (h : -32768 ≤ req ∧ req ≤ 32767) :
+    (req < 0 → nddsEff req = none) ∧ (0 ≤ req → ∃ n, nddsEff req = some n ∧ 4 ≤ n ∧ n ≤ 32767 ∧ (4 ≤ req → (n : Int) = req)) := by
+  unfold nddsEff
+  simp only [show (MIN_NDDS : Nat) = 4 from rfl, show DEF_NDDS = 16 from rfl]
+  constructor
+  · intro hn; simp [hn]
+  · intro hp
+    have h0 : ¬ req < 0 := by omega
+    simp only [h0, if_false]
+    split
+    · exact ⟨16, rfl, by omega, by omega, by omega⟩
+    · split
+      · exact ⟨4, rfl, by omega, by omega, by omega⟩
+      · exact ⟨req.toNat, rfl, by omega, by omega, by omega⟩
+
+example : nddsEff 32767 = some 32767 ∧ nddsEff 0 = some 16 ∧ nddsEff 3 = some 4 ∧ nddsEff (-1) = none := by decide
+
+/-! ### 2b. reference numbers across the limit: object creation after `maxref` reached 65535 -/
+
+/-- `maxref` is a 16-bit value that bounds every reference number in use, and 0 is never in use -/
+def RefInv (s : RefSt) : Prop := s.maxref ≤ 65535 ∧ ∀ p ∈ s.used, 1 ≤ p.1 ∧ p.2 ≤ s.maxref
+
+theorem inUse_iff (s : RefSt) (r : Nat) : s.inUse r = true ↔ ∃ p ∈ s.used, p.1 ≤ r ∧ r ≤ p.2 := by
+  unfold RefSt.inUse
+  simp [List.any_eq_true]
+
+theorem inUse_bounds {s : RefSt} (h : RefInv s) {r : Nat} (hr : s.inUse r = true) : 1 ≤ r ∧ r ≤ s.maxref := by
+  obtain ⟨p, hp, h1, h2⟩ := (inUse_iff s r).mp hr
+  have := h.2 p hp
+  omega
+
+theorem refPut_inv {s : RefSt} (h : RefInv s) {lo hi : Nat} (h1 : 1 ≤ lo) (h2 : hi ≤ 65535) : RefInv (refPut s lo hi) := by
+  unfold refPut RefInv
+  obtain ⟨hm, hu⟩ := h
+  refine ⟨by simp only; split <;> omega, ?_⟩
+  intro p hp
+  simp only [List.mem_append, List.mem_singleton] at hp
+  rcases hp with hp | hp
+  · have := hu p hp; simp only; split <;> omega
+  · subst hp; simp only; split <;> omega
+
+theorem refPutN_inv {s : RefSt} (h : RefInv s) {r : Nat} (h1 : 1 ≤ r) (h2 : r ≤ 65535) (n : Nat) : RefInv (refPutN s r n) := by
+  induction n generalizing s with
+  | zero => exact h
+  | succ n ih => exact ih (refPut_inv h h1 h2)
+
+theorem delRun_sub (l : List (Nat × Nat)) (r : Nat) : ∀ p ∈ delRun l r, ∃ q ∈ l, q.1 ≤ p.1 ∧ p.2 ≤ q.2 := by
+  induction l with
+  | nil => intro p hp; simp [delRun] at hp
+  | cons a rest ih =>
+    obtain ⟨lo, hi⟩ := a
+    intro p hp
+    unfold delRun at hp
+    split at hp
+    · rename_i hc
+      simp only [List.mem_append] at hp
+      rcases hp with (hp | hp) | hp
+      · split at hp
+        · simp only [List.mem_singleton] at hp; subst hp; exact ⟨(lo, hi), by simp, by simp, by simp; omega⟩
+        · simp at hp
+      · split at hp
+        · simp only [List.mem_singleton] at hp; subst hp; exact ⟨(lo, hi), by simp, by simp; omega, by simp⟩
+        · simp at hp
+      · exact ⟨p, by simp [hp], Nat.le_refl _, Nat.le_refl _⟩
+    · simp only [List.mem_cons] at hp
+      rcases hp with hp | hp
+      · subst hp; exact ⟨(lo, hi), by simp, Nat.le_refl _, Nat.le_refl _⟩
+      · obtain ⟨q, hq, h1, h2⟩ := ih p hp
+        exact ⟨q, by simp [hq], h1, h2⟩
+
+theorem refDel_inv {s : RefSt} (h : RefInv s) (r : Nat) : RefInv (refDel s r) := by
+  unfold refDel RefInv
+  refine ⟨h.1, ?_⟩
+  intro p hp
+  obtain ⟨q, hq, h1, h2⟩ := delRun_sub s.used r p hp
+  have := h.2 q hq
+  simp only; omega
+
+/-- deleting a descriptor never brings a reference number INTO use -/
+theorem refDel_inUse {s : RefSt} {r x : Nat} (hx : (refDel s r).inUse x = true) : s.inUse x = true := by
+  obtain ⟨p, hp, h1, h2⟩ := (inUse_iff _ x).mp hx
+  obtain ⟨q, hq, h3, h4⟩ := delRun_sub s.used r p hp
+  exact (inUse_iff s x).mpr ⟨q, hq, by omega, by omega⟩
+
+theorem refPutN_used (s : RefSt) (r n : Nat) : (refPutN s r n).used = s.used ++ List.replicate n (r, r) := by
+  induction n generalizing s with
+  | zero => simp [refPutN]
+  | succ n ih => rw [refPutN, ih]; simp [refPut, List.replicate_succ]
+
+/-- **what `Hnewref` hands out is in use by NO descriptor**, whatever the history: on every state that satisfies the
+    invariant a non-zero answer is a 16-bit number, not 0, carried by no descriptor of any tag -/
+theorem refAlloc_fresh {s : RefSt} (h : RefInv s) (n : Nat) (hr : (refAlloc s n).1 ≠ 0) :
+    s.inUse (refAlloc s n).1 = false ∧ 1 ≤ (refAlloc s n).1 ∧ (refAlloc s n).1 ≤ 65535 := by
+  unfold refAlloc at hr ⊢
+  simp only at hr ⊢
+  split at hr
+  · simp at hr
+  · rename_i hne
+    simp only [hne, if_false]
+    have hmax : ∀ r, s.maxref < r → s.inUse r = false := by
+      intro r hlt
+      cases hu : s.inUse r with
+      | false => rfl
+      | true => have := inUse_bounds h hu; omega
+    rcases newref_fresh s.maxref s.inUse hmax hne with ⟨a, b, c, _⟩ | hbig
+    · exact ⟨a, b, c⟩
+    · have := h.1; omega
+
+/-- the new object's descriptors are appended, every descriptor that was there stays -/
+theorem refAlloc_used (s : RefSt) (n : Nat) :
+    (refAlloc s n).2.used = s.used ++ List.replicate (if (refAlloc s n).1 = 0 then 0 else n) ((refAlloc s n).1, (refAlloc s n).1) := by
+  unfold refAlloc
+  simp only
+  split
+  · simp
+  · rw [refPutN_used]
+
+/-- **exhaustion is refused, and only exhaustion**: the answer is 0 iff every number 1 .. 65535 is in use -/
+theorem refAlloc_zero_iff {s : RefSt} (h : RefInv s) (n : Nat) :
+    (refAlloc s n).1 = 0 ↔ ∀ r, 1 ≤ r → r ≤ 65535 → s.inUse r = true := by
+  have hz := newref_zero_iff s.maxref s.inUse
+  unfold refAlloc
+  simp only
+  constructor
+  · intro h0
+    split at h0
+    · rename_i hc; exact (hz.mp hc).2
+    · rename_i hc; exact absurd h0 hc
+  · intro hall
+    have hm : s.maxref ≥ 65535 := (inUse_bounds h (hall 65535 (by omega) (by omega))).2
+    have := hz.mpr ⟨hm, hall⟩
+    simp [this]
+
+/-- a refused request changes nothing -/
+theorem refAlloc_zero_state (s : RefSt) (n : Nat) (h0 : (refAlloc s n).1 = 0) : (refAlloc s n).2 = s := by
+  unfold refAlloc at h0 ⊢
+  simp only at h0 ⊢
+  split
+  · rfl
+  · rename_i hc; simp [hc] at h0
+
+theorem refAlloc_inv {s : RefSt} (h : RefInv s) (n : Nat) : RefInv (refAlloc s n).2 := by
+  by_cases h0 : (refAlloc s n).1 = 0
+  · rw [refAlloc_zero_state s n h0]; exact h
+  · obtain ⟨_, h1, h2⟩ := refAlloc_fresh h n h0
+    have hm2 : (newref s.maxref s.inUse).2 ≤ 65535 := by
+      unfold newref; simp only [(consts2).1]; split
+      · omega
+      · exact h.1
+    have hm1 : s.maxref ≤ (newref s.maxref s.inUse).2 := by
+      unfold newref; simp only [(consts2).1]; split <;> omega
+    have hbase : RefInv { s with maxref := (newref s.maxref s.inUse).2 } :=
+      ⟨hm2, fun p hp => by have := h.2 p hp; simp only; omega⟩
+    unfold refAlloc at h0 h1 h2 ⊢
+    simp only at h0 h1 h2 ⊢
+    split
+    · exact h
+    · rename_i hne
+      simp only [hne, if_false] at h1 h2
+      exact refPutN_inv hbase h1 h2 n
+
+/-- **the order of the descriptors in the DD list does not matter**: two files whose descriptors carry the same
+    reference numbers get the same answer -/
+theorem refAlloc_perm {s t : RefSt} (hm : s.maxref = t.maxref) (hp : s.used.Perm t.used) (n : Nat) :
+    (refAlloc s n).1 = (refAlloc t n).1 := by
+  have hu : s.inUse = t.inUse := by
+    funext r
+    unfold RefSt.inUse
+    exact hp.any_eq
+  unfold refAlloc
+  simp only [hm, hu]
+  split <;> rfl
+
+/-- two objects created one after the other (the first one written: `n ≥ 1` descriptors) never share a number -/
+theorem refAlloc_twice_distinct {s : RefSt} (h : RefInv s) (n m : Nat) (hn : 1 ≤ n)
+    (h1 : (refAlloc s n).1 ≠ 0) (h2 : (refAlloc (refAlloc s n).2 m).1 ≠ 0) :
+    (refAlloc (refAlloc s n).2 m).1 ≠ (refAlloc s n).1 := by
+  intro heq
+  have hf := (refAlloc_fresh (refAlloc_inv h n) m h2).1
+  rw [heq] at hf
+  have hin : (refAlloc s n).2.inUse (refAlloc s n).1 = true := by
+    rw [inUse_iff, refAlloc_used]
+    refine ⟨((refAlloc s n).1, (refAlloc s n).1), ?_, Nat.le_refl _, Nat.le_refl _⟩
+    simp only [h1, if_false, List.mem_append, List.mem_replicate]
+    right; exact ⟨by omega, trivial⟩
+  rw [hin] at hf; cases hf
+
+/-- every state reached from a state with the invariant by creations with 16-bit numbers, deletions and allocations
+    has the invariant: no counter leaves its 16 bits -/
+def RefOp.Ok : RefOp → Prop
+  | .put lo hi => 1 ≤ lo ∧ hi ≤ 65535
+  | _ => True
+
+theorem refRun_inv (ops : List RefOp) (hops : ∀ o ∈ ops, RefOp.Ok o) {s : RefSt} (h : RefInv s) : RefInv (refRun s ops).2 := by
+  induction ops generalizing s with
+  | nil => exact h
+  | cons o os ih =>
+    have ho := hops o (by simp)
+    have hs : RefInv (refStep s o).2 := by
+      cases o with
+      | put lo hi => exact refPut_inv h ho.1 ho.2
+      | del r => exact refDel_inv h r
+      | alloc n => exact refAlloc_inv h n
+    exact ih (fun o' ho' => hops o' (by simp [ho'])) hs
+
+/-- as the code is: after the counter saturated, a number handed out for an object that is NOT yet written
+    (`n = 0`) is handed out again by the next call (finding `limits-wrap-ref-handed-out-twice`) -/
+theorem refAlloc_unwritten_repeats (s : RefSt) (hm : s.maxref ≥ 65535) :
+    (refAlloc (refAlloc s 0).2 0).1 = (refAlloc s 0).1 := by
+  have hs : (refAlloc s 0).2 = s := by
+    unfold refAlloc newref
+    simp only [(consts2).1, show ¬ s.maxref < 65535 by omega, if_false, refPutN]
+    split <;> rfl
+  rw [hs]
+
+example : RefInv ⟨65535, [(1, 1), (5, 5), (3, 4), (2, 2), (65535, 65535)]⟩ := by
+  refine ⟨by decide, ?_⟩; intro p hp; simp at hp; rcases hp with h | h | h | h | h <;> subst h <;> decide
+
+/-- a file with history: the descriptors are NOT in ascending order of their numbers, 65535 is in use, 6 and 9 are free.
+    The next three objects get 6, 9 and 10 .. and an exhausted file refuses, unchanged -/
+example : (refRun ⟨65535, [(7, 8), (65535, 65535), (3, 5), (1, 2), (4, 4)]⟩ [.alloc 2, .alloc 1, .del 4, .alloc 0, .alloc 1]).1 = [6, 9, 0, 10, 10] := by
+  decide +kernel
+
+example : (refAlloc ⟨65535, [(2, 65535), (1, 1)]⟩ 2) = (0, ⟨65535, [(2, 65535), (1, 1)]⟩) := by
+  have h : RefInv ⟨65535, [(2, 65535), (1, 1)]⟩ := by
+    refine ⟨by decide, ?_⟩; intro p hp; simp at hp; rcases hp with h | h <;> subst h <;> decide
+  have h0 : (refAlloc ⟨65535, [(2, 65535), (1, 1)]⟩ 2).1 = 0 := by
+    rw [refAlloc_zero_iff h]
+    intro r h1 h2
+    rw [inUse_iff]
+    by_cases hr : r = 1
+    · exact ⟨(1, 1), by simp, by simp [hr], by simp [hr]⟩
+    · exact ⟨(2, 65535), by simp, by simp; omega, by simp; omega⟩
+  exact Prod.ext h0 (refAlloc_zero_state _ _ h0)
+
 /-- the `uint16` member count of a Vgroup (`nvelt`): the model's accept predicate, and the C08 theorem that the
     modelled `vinsertpair` refuses the 65536th member of ANY well-formed vgroup and changes nothing -/
 theorem vg_member_limit (n : Nat) : vinsertOk n = true ↔ n < 65535 := by
@@ -715,6 +952,37 @@ example : nameStored .sdname (List.replicate 257 97) = none ∧ (nameStored .sdn
   · rw [sdname_accept_iff, List.length_replicate]; omega
 
 /-! ## 5. SD rank and the open-file table -/
+
+/-- the counts of data sets per file and of attributes per list never pass their documented maxima, however many
+    requests are made, and a request below the maximum is accepted -/
+theorem sdvar_accept_iff (count : Nat) : sdvarOk count = true ↔ count < 5000 := by
+  unfold sdvarOk; simp [show H4_MAX_NC_VARS = 5000 from rfl]
+
+theorem sdattr_accept_iff (count : Nat) : sdattrOk count = true ↔ count < 3000 := by
+  unfold sdattrOk; simp [show H4_MAX_NC_ATTRS = 3000 from rfl]
+
+theorem countRun_eq (ok : Nat → Bool) (lim : Nat) (hok : ∀ c, ok c = true ↔ c < lim) (count n : Nat) (h : count ≤ lim) :
+    countRun ok count n = min (count + n) lim := by
+  induction n generalizing count with
+  | zero => simp [countRun]; omega
+  | succ n ih =>
+    unfold countRun
+    by_cases hc : count < lim
+    · rw [if_pos ((hok count).mpr hc), ih (count + 1) (by omega)]; omega
+    · have : ok count = false := by
+        cases ho : ok count with
+        | false => rfl
+        | true => exact absurd ((hok count).mp ho) hc
+      rw [this]; simp only [Bool.false_eq_true, if_false]; rw [ih count h]; omega
+
+theorem sdvar_never_beyond (count n : Nat) (h : count ≤ 5000) : countRun sdvarOk count n = min (count + n) 5000 :=
+  countRun_eq sdvarOk 5000 sdvar_accept_iff count n h
+
+theorem sdattr_never_beyond (count n : Nat) (h : count ≤ 3000) : countRun sdattrOk count n = min (count + n) 3000 :=
+  countRun_eq sdattrOk 3000 sdattr_accept_iff count n h
+
+example : countRun sdvarOk 4998 5 = 5000 ∧ sdvarOk 4999 = true ∧ sdvarOk 5000 = false ∧ sdattrOk 2999 = true ∧ sdattrOk 3000 = false := by
+  decide
 
 theorem sdrank_accept_iff (rank : Nat) : sdrankOk rank = true ↔ rank ≤ 32 := by
   simp [sdrankOk, (consts2).2.2.2.2.2.2.2.1]
